@@ -210,7 +210,8 @@ class Play:
             view = v + 1
             prop = self.leader(view)
         self.L.append(f"block {nm} parent={parent} view={view} proposer={prop} qc={qc}")
-        self.L.append(f"deliver propose {nm} from={prop}")
+        inert = " expect=inert" if kind.startswith("bad-qc") and qc != self.curqc else ""
+        self.L.append(f"deliver propose {nm} from={prop}{inert}")
 
     def inject_votes(self, b, v, pv):
         rng = self.rng
@@ -223,7 +224,7 @@ class Play:
             self.L.append(f"deliver vote {x} {b} from={i}")
         elif kind == "junk":
             self.sigset(x, [(i, "junk%d" % rng.randrange(1, 9))])
-            self.L.append(f"deliver vote {x} {b} from={i}")
+            self.L.append(f"deliver vote {x} {b} from={i} expect=inert")
         elif kind == "multi" and len(pv) >= 2:
             self.L.append(f"combine {ps[0]} {x} {pv[0][1]} {pv[1][1]}")
             self.L.append(f"deliver vote {x} {b} from={i}")
@@ -239,12 +240,12 @@ class Play:
             self.sigset(x, [(j, nm)])
             self.L.append(f"deliver vote {x} {b} from={j}")
         elif kind == "nil":
-            self.L.append(f"deliver vote nil {b} from={i}")
+            self.L.append(f"deliver vote nil {b} from={i} expect=inert")
         elif kind == "own-replay":
             self.L.append(f"deliver vote own.vote.{b} {b} from={i}")
         elif kind == "inf" and self.scheme == "bls12":
             self.L.append(f"bls {x} pt=0 bits=-")
-            self.L.append(f"deliver vote {x} {b} from={i}")
+            self.L.append(f"deliver vote {x} {b} from={i} expect=inert")
 
     def inject_timeouts(self, v):
         rng = self.rng
@@ -279,7 +280,8 @@ class Play:
             self.L.append(f"deliver timeout own.tmo.{v} from={i}")
             return
         self.L.append(f"timeout {x} id={tid} view={tv} viewsig={vs} msgsig={ms} qc={self.curqc}")
-        self.L.append(f"deliver timeout {x}")
+        inert = " expect=inert" if kind in ("copied-sig", "junk", "nil", "id-zero") else ""
+        self.L.append(f"deliver timeout {x}{inert}")
 
     def inject_newview(self, v):
         rng = self.rng
@@ -307,7 +309,8 @@ class Play:
             self.L.append(f"si {x} qc={x}q tc=- agg=-")
         else:
             self.L.append(f"si {x} qc={self.curqc} tc=- agg=-")
-        self.L.append(f"deliver newview {x} from={rng.choice(ps)}")
+        inert = " expect=inert" if kind in ("forged-tc", "nil-tc", "nil-agg") and self.q >= 2 else ""
+        self.L.append(f"deliver newview {x} from={rng.choice(ps)}{inert}")
 
     def run(self, nviews):
         rng = self.rng
@@ -324,6 +327,41 @@ class Play:
                 self.L.append("dump")
         self.L.append("dump")
         return self.L
+
+
+DROPS = {
+    "propose": ["block", "block.qc", "block.qc.sig", "block.qc.hash", "block.parent", "block.commands", "block.timestamp", "agg", "agg.sig"],
+    "vote": ["sig", "hash"],
+    "timeout": ["viewsig", "msgsig", "si", "qc", "qc.sig", "qc.hash", "tc", "agg"],
+    "newview": ["si", "qc", "qc.sig", "qc.hash", "tc", "tc.sig", "agg", "agg.sig"],
+}
+
+
+def to_wire(lines, rng, p=0.6):
+    """send a share of the deliveries through the real gorums handlers as (possibly mutilated) wire messages"""
+    ids = {}
+    out = []
+    for l in lines:
+        t = l.split()
+        if t[0] == "timeout" and len(t) > 2:
+            for kv in t[2:]:
+                if kv.startswith("id="):
+                    ids[t[1]] = kv[3:]
+        if t[0] == "deliver" and rng.random() < p:
+            kind = t[1]
+            rest = [x for x in t[2:] if not x.startswith("expect=")]
+            if kind == "timeout" and not any(x.startswith("from=") for x in rest):
+                rest.append("from=" + ids.get(t[2], "0"))
+            r = rng.random()
+            if r < 0.5:
+                k = rng.choice([1, 1, 2, 3])
+                rest.append("drop=" + ",".join(rng.sample(DROPS[kind], min(k, len(DROPS[kind])))))
+            elif r < 0.6:
+                rest = [x for x in rest if not x.startswith("from=")]
+            out.append("wire " + kind + " " + " ".join(rest))
+        else:
+            out.append(l)
+    return out
 
 
 class ReplicaFam(Family):
@@ -345,7 +383,10 @@ class ReplicaFam(Family):
                 rules = RULES[k % 3]
                 adv = rng.random() < 0.7
                 p = Play(rng, scheme, n, r, rules, rng.choice([0, 0, 10, 100]), adv)
-                yield (f"play-{scheme}-{rules}-n{n}-r{r}-{'adv' if adv else 'honest'}-{k}", p.run(rng.randrange(3, 9 if scheme != "bls12" else 6)))
+                lines = p.run(rng.randrange(3, 9 if scheme != "bls12" else 6))
+                if self.focus == "c10" and k % 4 != 0:
+                    lines = to_wire(lines, rng)
+                yield (f"play-{scheme}-{rules}-n{n}-r{r}-{'adv' if adv else 'honest'}-{k}", lines)
 
     def nontrivial_keys(self, lines, impl_out):
         from . import core
@@ -357,8 +398,11 @@ class ReplicaFam(Family):
     def tags(self, lines, impl_out):
         t = {}
         for l, o in zip(lines, impl_out):
-            if l.startswith(("deliver", "local-timeout", "start")):
-                k = " ".join(l.split()[:2]) if l.startswith("deliver") else l.split()[0]
+            if l.startswith(("deliver", "wire", "local-timeout", "start")):
+                k = " ".join(l.split()[:2]) if l.startswith(("deliver", "wire")) else l.split()[0]
+                if "drop=" in l:
+                    for d in l.split("drop=")[1].split()[0].split(","):
+                        t["drop:" + l.split()[1] + ":" + d] = t.get("drop:" + l.split()[1] + ":" + d, 0) + 1
                 t["op:" + k] = t.get("op:" + k, 0) + 1
                 for eff in ("sign(blk", "sign(view", "sign(tmo", "propose(", "vote(", "timeout(", "newview(", "vc(", "commit(", "abort(", "panic"):
                     if eff in o:
